@@ -615,6 +615,10 @@ func structDump(g *graph.DependencyGraph) string {
 	// the GetDependencies query).
 	d := kit.NewDumper()
 	d.MaskBools, d.MaskPtrSlices, d.SortStructSlices = true, true, true
+	// of the graph object itself only its containers (node table, adjacency lists): a cache kept
+	// as scalars (e.g. "cycle found" + "at node") is as unobservable behind its dirty flag as one
+	// kept in a map
+	d.RootContainersOnly = true
 	d.SkipType = map[string]bool{"RWMutex": true, "Mutex": true}
 	return d.Render(g)
 }
